@@ -7,6 +7,7 @@ FAMILIES = {
     "ovx": {"src": "scen/ovx.cpp", "parts": 3},
     "bits": {"src": "scen/bits.cpp", "parts": 3},
     "fn": {"src": "scen/fn.cpp", "parts": 2},
+    "views": {"src": "scen/views.cpp", "parts": 1},
 }
 
 SAN = ["-O1", "-g1", "-fsanitize=address,undefined", "-fno-sanitize-recover=undefined", "-fno-omit-frame-pointer"]
@@ -105,7 +106,8 @@ PROPS = {
         "thorough": {"flavours": ["chk-O2", "chk-asan", "off-asan", "chk-O0"], "runs": 8000000, "max_seconds": 240},
     },
     "C02": {
-        "families": ["vec", "str", "set", "ovx", "bits", "fn"],
+        "families": ["vec", "str", "set", "ovx", "bits", "fn", "views"],
+        "shares": {"vec": 0.2, "str": 0.25, "set": 0.15, "ovx": 0.1, "bits": 0.1, "fn": 0.1, "views": 0.1},
         "level": "exploration",
         "rule": "one run = one seeded plan of valid (and capacity-refusal) steps executed twice under two different garbage "
                 "patterns in the arena, under ASan+UBSan, with guard zones, exact-size heap argument buffers and the allocator "
@@ -125,7 +127,8 @@ PROPS = {
         "thorough": {"flavours": ["chk-O2", "chk-asan", "off-asan", "chk-O0"], "runs": 12000000, "max_seconds": 240},
     },
     "C05": {
-        "families": ["vec", "str", "set", "ovx", "bits", "fn"],
+        "families": ["vec", "str", "set", "ovx", "bits", "fn", "views"],
+        "shares": {"vec": 0.2, "str": 0.2, "set": 0.1, "ovx": 0.1, "bits": 0.1, "fn": 0.1, "views": 0.2},
         "level": "fault_enumeration",
         "rule": "misuse faults (a precondition-violating call at the boundary, boundary+1 and max) are attached to seeded steps "
                 "of container histories; the replaced handler must be entered with a location before any damage and, for "
